@@ -496,6 +496,74 @@ func menu() []item {
 	add(item{ID: "seq.block1-redelivered", Group: "sequence", Hdr: true, Want: "i", Make: func(c *stateCtx) *delivery {
 		return &delivery{Raw: append([]byte{}, c.blocks[0]...), Flag: c.fam.SRIH}
 	}})
+	// ---- headers known in advance ---------------------------------------------------------------
+	// "ahead": AddHeaders(header of b, header of a corrupted successor b2'), then
+	// AddBlock(b), then AddBlock(b2'). The corruption is re-signed by the
+	// validators of that height unless the name ends in .keep.
+	type aheadEdit struct {
+		name string
+		srih bool
+		keep bool
+		f    func(c *stateCtx, h *block.Header)
+	}
+	for _, e := range []aheadEdit{
+		{"none(valid-successor)", false, false, func(c *stateCtx, h *block.Header) {}},
+		{"PrevStateRoot=0", true, false, func(c *stateCtx, h *block.Header) { h.PrevStateRoot = util.Uint256{} }},
+		{"PrevStateRoot^1", true, false, func(c *stateCtx, h *block.Header) { flip(h.PrevStateRoot[:]) }},
+		{"PrevStateRoot=root-before-b", true, false, func(c *stateCtx, h *block.Header) { h.PrevStateRoot = c.cv.LocalRoot }},
+		{"PrevStateRoot^1.keep", true, true, func(c *stateCtx, h *block.Header) { flip(h.PrevStateRoot[:]) }},
+		{"Timestamp=b's", false, false, func(c *stateCtx, h *block.Header) { h.Timestamp = c.b.Timestamp }},
+		{"Timestamp=b's.keep", false, true, func(c *stateCtx, h *block.Header) { h.Timestamp = c.b.Timestamp }},
+		{"Timestamp+1", false, false, func(c *stateCtx, h *block.Header) { h.Timestamp++ }},
+		{"PrevHash=tip", false, false, func(c *stateCtx, h *block.Header) { h.PrevHash = c.cv.Tip.Hash() }},
+		{"PrevHash^1", false, false, func(c *stateCtx, h *block.Header) { flip(h.PrevHash[:]) }},
+		{"Index+1", false, false, func(c *stateCtx, h *block.Header) { h.Index++ }},
+		{"MerkleRoot^1", false, false, func(c *stateCtx, h *block.Header) { flip(h.MerkleRoot[:]) }},
+		{"Nonce+1", false, false, func(c *stateCtx, h *block.Header) { h.Nonce++ }},
+	} {
+		e := e
+		add(item{ID: "ahead.b2." + e.name, Group: "headers-ahead", Make: func(c *stateCtx) *delivery {
+			if e.srih && !c.fam.SRIH {
+				return nil
+			}
+			b2, err := chainx.DecodeBlock(c.b2Bytes, c.fam.SRIH)
+			if err != nil {
+				panic(err)
+			}
+			e.f(c, &b2.Header)
+			b2 = reblock(b2)
+			if !e.keep {
+				if err := chainx.SignBlock(b2, c.vals2, c.magic); err != nil {
+					panic(err)
+				}
+			}
+			d := rawOf(b2)
+			d.Seq = "ahead"
+			return d
+		}})
+	}
+	// "mirror": AddHeaders(header of b, header of the valid b2), then a corrupted
+	// b, then b and b2.
+	for _, base := range []string{"hdr.PrevStateRoot=0.resign", "hdr.PrevStateRoot^1.resign", "hdr.PrevStateRoot=parent's.resign", "hdr.Timestamp=parent's.resign",
+		"hdr.PrevHash=grandparent.resign", "hdr.Nonce+1.resign", "wit.sig-first^1", "txs.drop-all.K", "tx0.witness.sig^1", "txs.dup-last-adjacent.K", "sp.expired(vub=tip)"} {
+		var bi *item
+		for i := range its {
+			if its[i].ID == base {
+				bi = &its[i]
+			}
+		}
+		if bi == nil {
+			panic("no base item " + base)
+		}
+		mk := bi.Make
+		add(item{ID: "mirror." + base, Group: "headers-ahead", Make: func(c *stateCtx) *delivery {
+			d := mk(c)
+			if d != nil {
+				d.Seq = "mirror"
+			}
+			return d
+		}})
+	}
 	// the valid block itself (control: must be accepted)
 	add(item{ID: "ctl.valid-block", Group: "control", Hdr: true, Want: "valid", Make: func(c *stateCtx) *delivery {
 		return &delivery{Raw: append([]byte{}, c.bBytes...), Flag: c.fam.SRIH}
